@@ -882,7 +882,11 @@ func oracle(d txDesc, f txFacts, mode string) (pre, post bool) {
 		if d.EthTx {
 			return true, d.Flaw == ""
 		}
-		return mode == "recheck" && f.allTopEth && f.nTop == 1, true
+		// Several MsgEthereumTx in one wrapper: each is validly signed, so signature
+		// verification passes on recheck for any count; they all carry the sender's
+		// current nonce, so from the second one on the sequence decorator (after the
+		// gate) refuses.
+		return mode == "recheck" && f.allTopEth && f.nTop >= 1, f.nTop == 1
 	case len(f.optURLs) == 1 && f.optURLs[0] == optWeb3:
 		// EIP-712 path with an ordinary (SIGN_MODE_DIRECT) signature: the legacy
 		// EIP-712 verification is skipped on recheck, stops after the sequence
